@@ -168,9 +168,7 @@ type vMonC19 struct {
 }
 
 func (m *vMonC19) min(h *vHist) int64 {
-	if m.minDep > 0 {
-		return m.minDep
-	}
+	// (the chain's profile follows accepted parameter changes, see vChain.gov)
 	return h.c.profile.DepMinDeposit
 }
 
